@@ -162,6 +162,12 @@ func isValidBits(x int) bool {
 }
 
 func bitsFromASCII(p []byte) (WindowBits, bool) {
+	if len(p) > 2 {
+		// Valid values (8..15) have at most two digits. Longer ones are
+		// refused before the conversion, which does not detect overflow
+		// (e.g. 2^64+8 would be taken as 8).
+		return 0, false
+	}
 	n, ok := httphead.IntFromASCII(p)
 	if !ok || !isValidBits(n) {
 		return 0, false
